@@ -1,6 +1,6 @@
 (* Inst_C17.v — the lint model instantiated with the regenerated tables (Gen/LintTables.v), and the
    decidable facts about those tables that the generic theorems of Proofs/LintP.v assume. *)
-From Coq Require Import List NArith Bool.
+From Coq Require Import List NArith Bool Arith Lia ZifyNat ZifyN.
 From GV Require Import Model.Lint Proofs.LintP Gen.LintTables.
 Import ListNotations.
 Local Open Scope N_scope.
@@ -9,15 +9,25 @@ Definition letter := in_ranges letter_ranges.
 Definition digit := in_ranges digit_ranges.
 Definition space := in_ranges space_ranges.
 Definition upper := assoc upper_ascii_tab.
+(* the characters that start / continue the tag of a dollar-quoted string *)
+Definition idstart := in_ranges idstart_ranges.
+Definition idpart := in_ranges idpart_ranges.
 
+Definition i_clines := clines idstart idpart.
+Definition i_l001_fix := l001_fix idstart idpart.
+Definition i_l001_check := l001_check idstart idpart.
+Definition i_l002_fix := l002_fix idstart idpart.
+Definition i_l002_check := l002_check idstart idpart.
+Definition i_l010_fix := l010_fix idstart idpart.
+Definition i_l010_check := l010_check idstart idpart.
 Definition i_trim_space := trim_space space.
-Definition i_l003_fix := l003_fix space.
-Definition i_l003_check := l003_check space.
-Definition i_l005_check := l005_check space.
-Definition i_l007_fix := l007_fix letter digit upper keywords_tab.
-Definition i_l007_check := l007_check letter digit upper keywords_tab.
-Definition i_cli_fix := cli_fix letter digit space upper keywords_tab.
-Definition i_format := format_sql space upper.
+Definition i_l003_fix := l003_fix idstart idpart space.
+Definition i_l003_check := l003_check idstart idpart space.
+Definition i_l005_check := l005_check idstart idpart space.
+Definition i_l007_fix := l007_fix idstart idpart letter digit upper keywords_tab.
+Definition i_l007_check := l007_check idstart idpart letter digit upper keywords_tab.
+Definition i_cli_fix := cli_fix idstart idpart letter digit space upper keywords_tab.
+Definition i_format := format_sql idstart idpart space upper.
 
 (* byte-level wrapper used by the correspondence cases *)
 Definition onb (f : list ch -> list ch) (s : list N) : list N := encode (f (decode s)).
@@ -25,7 +35,8 @@ Definition onb (f : list ch -> list ch) (s : list N) : list N := encode (f (deco
 (* ---- facts about the regenerated tables (complete evaluation of finite tables) ---- *)
 
 Definition plainNb (n : N) : bool :=
-  negb (nq n =? 39) && negb (nq n =? 34) && negb (n =? 96) && negb (n =? 45) && negb (n =? 42) && negb (n =? 47) && negb (n =? 10).
+  negb (nq n =? 39) && negb (nq n =? 34) && negb (n =? 96) && negb (n =? 45) && negb (n =? 42) && negb (n =? 47) && negb (n =? 10) &&
+  negb (n =? 36).
 Lemma plainNb_spec : forall n, plainNb n = true -> plainN n.
 Proof.
   intros n H. unfold plainNb in H. repeat (apply andb_prop in H; destruct H as [H ?]).
@@ -33,12 +44,12 @@ Proof.
 Qed.
 
 (* every entry (x, u) of the upper-case table: x and u are not delimiters of the scanner, u is a letter and its own image,
-   x is not white space *)
+   x is not white space, x starts a tag and x and u continue one (they are letters) *)
 Definition up_entry_ok (kv : N * N) : bool :=
   let x := fst kv in let u := snd kv in
   plainNb x && plainNb u && letter u && (u <? 128) &&
   match upper u with Some u' => u' =? u | None => false end &&
-  negb (space x) && negb (x =? 32) && negb (x =? 9) && negb (x =? 10).
+  negb (space x) && negb (x =? 32) && negb (x =? 9) && negb (x =? 10) && idstart x && idpart x && idpart u.
 
 Lemma up_tab_ok : forallb up_entry_ok upper_ascii_tab = true.
 Proof. vm_compute. reflexivity. Qed.
@@ -55,6 +66,8 @@ Proof.
   intros x u H. apply up_entry in H. up_split H. split; [|apply plainNb_spec; assumption].
   unfold plainN. repeat split; apply N.eqb_neq; apply negb_true_iff; assumption.
 Qed.
+Lemma up_id : up_tag idstart idpart upper.
+Proof. intros x u H. apply up_entry in H. up_split H. repeat split; assumption. Qed.
 Lemma up_letter : forall x u, upper x = Some u -> letter u = true.
 Proof. intros x u H. apply up_entry in H. up_split H. assumption. Qed.
 Lemma up_ascii : forall x u, upper x = Some u -> u < 128.
@@ -77,5 +90,26 @@ Proof. vm_compute. reflexivity. Qed.
 (* space, tab and newline are spaces; the delimiters of the scanner are not *)
 Lemma space_32_9 : space 32 = true /\ space 9 = true /\ space 10 = true.
 Proof. vm_compute. repeat split. Qed.
-Lemma sp_nodelim : sp_ok space.
+(* the points of a range table *)
+Fixpoint pts (rs : list (N * N)) : list N :=
+  match rs with
+  | [] => []
+  | (lo, hi) :: t => map (fun k => lo + N.of_nat k) (seq 0 (S (N.to_nat (hi - lo)))) ++ pts t
+  end.
+Lemma in_ranges_pts : forall rs x, in_ranges rs x = true -> In x (pts rs).
+Proof.
+  induction rs as [|[lo hi] t IH]; intros x H; [discriminate|]. cbn [in_ranges pts] in *. apply in_or_app.
+  destruct (x <? lo) eqn:E1; [discriminate|]. destruct (x <=? hi) eqn:E2; [left|right; apply IH; exact H].
+  apply N.ltb_ge in E1. apply N.leb_le in E2. apply in_map_iff. exists (N.to_nat (x - lo)). split; [lia|]. apply in_seq. lia.
+Qed.
+(* the line break, the space and the tab do not continue a tag; no white space character does *)
+Lemma id_facts : id_ok idpart.
 Proof. vm_compute. repeat split. Qed.
+Lemma space_not_tag : forall n, space n = true -> idpart n = false.
+Proof.
+  intros n H. apply in_ranges_pts in H.
+  assert (A : forallb (fun x => negb (idpart x)) (pts space_ranges) = true) by (vm_compute; reflexivity).
+  rewrite forallb_forall in A. apply negb_true_iff. apply A. exact H.
+Qed.
+Lemma sp_nodelim : sp_ok idpart space.
+Proof. unfold sp_ok. do 13 (split; [vm_compute; reflexivity|]). exact space_not_tag. Qed.
